@@ -1,8 +1,25 @@
-"""C07 - decided by Render.tla on recorded executions of generated programs (see render.py)."""
+"""C07 - decided by Render.tla on recorded executions of generated programs (see render.py).
+
+Besides the lattice programs (user edges on all 12 positions, faces used as given / inverted / shifted / re-oriented)
+a second family of programs uses operations that CREATE their own direction-dependent side edges: a Revolve in
+general position (four angle-and-axis arcs), optionally followed by operation-level steps (invert, copy, translate,
+rotate, scale, mirror).  The abstract program lists the four swept arcs as user edges (bottom corner i -> top corner i,
+the exact circle each corner travels on, computed with the harness' own Rodrigues rotation); the written file is
+abstracted the same way as for lattice programs and judged by the same Render.tla clauses (present exactly once, on a
+block edge, drawn on the side the user described).
+"""
 
 from __future__ import annotations
 
+import json
+import math
+import os
+import random
+from typing import Dict, List
+
+from .. import bmd
 from ..common import Ctx
+from ..renderlib import Geometry, abstract_file, vadd, vcross, vdot, vmul, vnorm, vsub, vunit
 from . import render
 
 FOCUS = {"C05": ["vertices"], "C06": ["file", "addressing"], "C07": ["edges"], "C10": ["addressing", "edges"]}["C07"]
@@ -10,13 +27,143 @@ FOCUS = {"C05": ["vertices"], "C06": ["file", "addressing"], "C07": ["edges"], "
 
 def run(ctx: Ctx) -> None:
     ctx.rule = ("programs = random abstract user scripts (lattice hexahedra with random corner numbering, patches, merges, "
-                "projections, edges, face manipulations, deletions); the written file is parsed and judged by TLC against "
+                "projections, edges, face manipulations, deletions) and revolved operations in general position followed by "
+                "operation-level steps; the written file is parsed and judged by TLC against "
                 "Render.tla; non-trivial = more than one operation or any edge/projection; distinct by program content")
     n = 150 if ctx.tier == "quick" else 2500
     for focus in FOCUS:
         render.run_focus(ctx, "C07", focus, n // len(FOCUS))
-    extra(ctx)
+    swept(ctx, 60 if ctx.tier == "quick" else 1500)
 
 
-def extra(ctx: Ctx) -> None:
-    pass
+# ---------------------------------------------------------------- own affine maps (independent of the library)
+def rot(p, angle, axis, origin):
+    k = vunit(axis)
+    v = vsub(p, origin)
+    c, s = math.cos(angle), math.sin(angle)
+    r = vadd(vadd(vmul(v, c), vmul(vcross(k, v), s)), vmul(k, vdot(k, v) * (1 - c)))
+    return vadd(origin, r)
+
+
+def mir(p, normal, origin):
+    n = vunit(normal)
+    return vsub(p, vmul(n, 2 * vdot(vsub(p, origin), n)))
+
+
+def scl(p, ratio, origin):
+    return vadd(origin, vmul(vsub(p, origin), ratio))
+
+
+class SweptGeometry(Geometry):
+    """position ids -> coordinates; the data of edge id i is the arc its corner travels on"""
+
+    def __init__(self, coords, thirds):
+        super().__init__(coords)
+        self.thirds = thirds
+
+    def edge_data(self, op, e):
+        return self.thirds[e["id"]]
+
+
+STEPS = ["invert", "copy", "translate", "rotate", "scale", "mirror"]
+
+
+def swept(ctx: Ctx, n: int) -> None:
+    import classy_blocks as cb
+
+    rng = random.Random(ctx.seed * 13 + 7)
+    recs, progs, geos = [], [], {}
+    for i in range(n):
+        size = 10 ** rng.uniform(-1, 1.5)
+        u = lambda a, b: rng.uniform(a, b) * size    # noqa: E731
+        # a quadrangle in general position, well away from the axis
+        base = [[u(1.0, 1.4), u(-0.2, 0.2), u(0.0, 0.3)], [u(2.0, 2.6), u(-0.2, 0.2), u(0.1, 0.4)],
+                [u(2.1, 2.7), u(-0.2, 0.2), u(1.2, 1.6)], [u(0.9, 1.3), u(-0.2, 0.2), u(1.0, 1.5)]]
+        shift = [u(-3, 3) for _ in range(3)]
+        face_pts = [vadd(p, shift) for p in base]
+        axis = [rng.uniform(-0.15, 0.15), rng.uniform(-0.15, 0.15), rng.choice([-1, 1]) * rng.uniform(0.4, 3.0)]   # non-unit
+        origin = vadd([u(-0.4, 0.4), u(-0.4, 0.4), u(-1, 1)], shift)
+        theta = rng.uniform(0.3, 2.6)
+        steps = [rng.choice(STEPS) for _ in range(rng.choice([0, 1, 1, 2, 3]))]
+        B = [list(p) for p in face_pts]
+        T = [rot(p, theta, axis, origin) for p in face_pts]
+        M = [rot(p, theta / 2, axis, origin) for p in face_pts]
+        key = {"theta": round(theta, 3), "steps": steps}
+        try:
+            op = cb.Revolve(cb.Face(face_pts), theta, axis, origin)
+            for st in steps:
+                if st == "invert":
+                    op.invert()
+                    B, T = T, B
+                elif st == "copy":
+                    op = op.copy()
+                elif st == "translate":
+                    d = [u(-2, 2) for _ in range(3)]
+                    op.translate(d)
+                    B, T, M = ([vadd(p, d) for p in X] for X in (B, T, M))
+                elif st == "rotate":
+                    a, ax, o = rng.uniform(-2.5, 2.5), [rng.uniform(-1, 1) for _ in range(3)], [u(-1, 1) for _ in range(3)]
+                    op.rotate(a, ax, o)
+                    B, T, M = ([rot(p, a, ax, o) for p in X] for X in (B, T, M))
+                elif st == "scale":
+                    r, o = rng.choice([0.5, 1.7, 3.0]), [u(-1, 1) for _ in range(3)]
+                    op.scale(r, o)
+                    B, T, M = ([scl(p, r, o) for p in X] for X in (B, T, M))
+                else:
+                    nrm, o = [rng.uniform(-1, 1) for _ in range(3)], [u(-1, 1) for _ in range(3)]
+                    op.mirror(nrm, o)
+                    B, T, M = ([mir(p, nrm, o) for p in X] for X in (B, T, M))
+                    B, T = T, B        # Operation.mirror swaps the faces so that the block stays right side out
+            for a in range(3):
+                op.chop(a, count=2)
+            mesh = cb.Mesh()
+            mesh.add(op)
+            path = os.path.join(ctx.tmp, "swept.bmd")
+            if os.path.exists(path):
+                os.remove(path)
+            mesh.write(path)
+            with open(path, encoding="utf-8") as f:
+                parsed = bmd.parse_blockmeshdict(f.read())
+        except Exception as err:  # pylint: disable=broad-except
+            ctx.violation(f"swept-fails:{'+'.join(sorted(set(steps))) or 'as-created'}:{type(err).__name__}",
+                          f"a Revolve followed by {steps} could not be written: {err}", {"case": key})
+            continue
+        ctx.evaluated(json.dumps(key, sort_keys=True))
+        coords = {c + 1: B[c] for c in range(4)}
+        coords.update({c + 5: T[c] for c in range(4)})
+        thirds = {}
+        edges = []
+        for c in range(4):
+            chord_mid = vmul(vadd(B[c], T[c]), 0.5)
+            thirds[c + 1] = {"third_fwd": M[c], "third_rev": vsub(vmul(chord_mid, 2), M[c])}
+            edges.append({"pa": c + 1, "pb": c + 5, "where": ["side", c], "kind": "angle", "outkind": "arc", "id": c + 1,
+                          "labels": [], "degenerate": False, "directed": True})
+        geo = SweptGeometry(coords, thirds)
+
+        def posid(p, coords=coords, size=size):
+            return min(coords, key=lambda k: sum((coords[k][j] - p[j]) ** 2 for j in range(3)))
+        o = {"pts0": list(range(1, 9)), "pts": list(range(1, 9)), "fsteps": {"bottom": [], "top": []}, "zone": "", "patch": [""] * 6,
+             "sproj": [""] * 6, "pproj": [[] for _ in range(8)], "deleted": False, "edges": edges, "edges_tlc": edges,
+             "get_face": [[posid(p.position) for p in op.get_face(sd).points] for sd in render.SIDES]}
+        prog = {"id": i + 1, "focus": "swept", "ops": [o], "merged": [], "dflt": [], "pkind": [], "psettings": [], "geom": [],
+                "unique_face_labels": True, "builtin": False, "steps": steps}
+        af = abstract_file(parsed, prog, geo, tol=1e-6 * size)
+        af.update({"vtk_checked": False, "vtk_points_match": True, "vtk_cells": []})
+        rec = {k: prog[k] for k in ("id", "merged", "dflt", "pkind", "psettings", "geom", "unique_face_labels", "builtin")}
+        rec["ops"] = [{k: o[k] for k in ("pts0", "pts", "fsteps", "zone", "patch", "sproj", "pproj", "deleted", "get_face", "edges", "edges_tlc")}]
+        rec["settings"] = [["scale", "1"]]
+        rec["file"] = af
+        recs.append(rec)
+        progs.append(prog)
+        geos[prog["id"]] = geo
+    if not recs:
+        return
+    verdicts = render.judge(ctx, recs)
+    for prog, rec in zip(progs, recs):
+        ctx.validated()
+        for c in verdicts[prog["id"]]:
+            if render.CLAUSE_PROP[c] != "C07" and c != "IndicesOK":
+                continue
+            tag = "+".join(sorted(set(prog["steps"]))) or "as-created"
+            ctx.violation(f"swept:{c}:{tag}", f"Revolve followed by {prog['steps']}: Render.tla clause {c} rejected the written file",
+                          {"steps": prog["steps"], "coords": {str(k): v for k, v in geos[prog['id']].coords.items()}, "file": rec["file"]})
